@@ -1132,11 +1132,13 @@ class Mps(MatrixProduct):
 
         if self.evolve_config.tdvp_cmf_midpoint:
             # mps at t/2 (1st order) as environment
-            orig_config = self.evolve_config.copy()
+            orig_config = self.evolve_config
+            self.evolve_config = orig_config.copy()
             self.evolve_config.tdvp_cmf_midpoint = False
             self.evolve_config.tdvp_cmf_c_trapz = False
             self.evolve_config.adaptive = False
-            environ_mps = self.evolve(mpo, evolve_dt / 2)
+            # in imaginary time `evolve_dt` has been made real above
+            environ_mps = self.evolve(mpo, -1j * evolve_dt / 2 if imag_time else evolve_dt / 2)
             self.evolve_config = orig_config
         else:
             # mps at t=0 as environment
